@@ -22,6 +22,8 @@ def run(ctx):
         h = lookups.lookup_history(ctx, g, ctx.rng, ln, WEIGHTS, METHODS, "interval-lookup", pool=POOL)
         hists.append(h)
         ctx.case(repr(h.items), True)
+    hists.append(lookups.fixed_sweep(ctx, g, ctx.rng, METHODS, "interval-lookup"))
+    ctx.case("fixed-sweep", True)
     worldgen.compare(ctx, hists, "interval-lookup", "C06 lookup correspondence")
     ctx.cov["histories"] = nh
     ctx.cov["traces_validated_against_impl"] = nh
